@@ -135,6 +135,11 @@ fn splice(doc: &str, range: (usize, usize), with: &str) -> Vec<u8> {
     v
 }
 
+/// spans of the text nodes of leaf elements (elements without child elements), raw
+pub fn leaf_text_spans(tree: &[Elem]) -> Vec<(String, (usize, usize))> {
+    tree.iter().filter(|e| e.children == 0 && e.texts.len() == 1 && e.texts[0].1 > e.texts[0].0).map(|e| (e.name.clone(), e.texts[0])).collect()
+}
+
 pub fn mutants(doc: &str, tree: &[Elem]) -> Vec<Mutant> {
     let mut m = Vec::new();
     // truncation at every offset
